@@ -20,6 +20,21 @@ CHECKS = {
         note="The JSON string codec of serde_json is trusted for getting the code string into the typed variant."),
 }
 
+CHECKS["C07"] = dict(
+    text="Theorems for every configuration, every clock and every reply script of any length: each wait obeys the step clauses "
+         "(pending keeps, slow_down +5 s saturating, failure within [cur, max(cur, ceiling)]), hence stays above interval + 5 s per slow_down; "
+         "trace shape (one wait between polls); no Duration overflow. The extracted step-clause monitor judges the waits observed from the "
+         "real blocking and future-based loops on exhaustive bounded scripts, and the extracted model's full trace is compared as well.",
+    design_ref="5 C07", technique="Coq proof (invariant by induction over scripts) + extracted monitor/model vs real poll loop",
+    note="Clock and sleep are caller closures (model: arbitrary reading list / recorded waits). Reply classification table tied to the Endpoint/JSON model.")
+CHECKS["C08"] = dict(
+    text="Theorems for arbitrary (even non-monotone) clocks and scripts of any length: the loop returns the first decisive reply with nothing after it, "
+         "sends no poll after a reading past start+timeout, returns the synthetic expired_token exactly at the first such reading and never earlier, "
+         "chooses the caller's timeout over expires_in, and turns an unrepresentable timeout into an error value with no request. "
+         "Correspondence: full event traces (clock reads, polls, waits, result) of the real blocking and future-based loops against the extracted model, and against each other.",
+    design_ref="5 C08", technique="Coq proof (induction over clock/script) + extracted-model differential correspondence under a scripted clock",
+    note="chrono's TimeDelta/DateTime limits are constants of the model, measured from the pinned chrono by the harness on every run.")
+
 NOT_YET = {}
 
 
